@@ -141,6 +141,8 @@ mod signer;
 pub mod subcommand;
 mod tally;
 pub mod templates;
+#[cfg(feature = "verif")]
+pub mod verif;
 pub mod wallet;
 
 type Result<T = (), E = Error> = std::result::Result<T, E>;
